@@ -436,7 +436,11 @@ impl<'a> Gen<'a> {
 pub fn gen_history(rng: &mut Rng, kind: &str, invalid: bool, thorough: bool) -> (&'static str, Vec<Step>) {
     let usz = *rng.pick(&[4usize, 6, 6, 6, 7, 8]);
     let universe: Vec<usize> = (1..=usz).collect();
-    let target = if thorough { rng.range(6, 40) } else { rng.range(4, 24) };
+    // one history in twelve is LONG (the event buffer of the buffered encoders, the variable tables and the
+    // SAT session keep growing over a solver's life: length-dependent slips need more than 64 buffered events)
+    let long = rng.chance(1, 12);
+    let target = if long { rng.range(70, if thorough { 300 } else { 150 }) }
+                 else if thorough { rng.range(6, 40) } else { rng.range(4, 24) };
     let recipe_id = rng.below(10);
     let mut g = Gen {
         rng,
